@@ -199,6 +199,17 @@ def gen_plan(rng, run_index, tier, opts):
             wall = tp.tz_convert("UTC").tz_localize(None) if tp.tzinfo is not None else tp
             tk["date"] = dict(tk["date"], v=specs.iso(wall))
             tk["date_on_grid"] = True
+    # a window given as a plain datetime.date (the documented form: "alternatively date"): midnight of that day, on naive grids
+    if tz is None and not world["grids"][g].get("date_zone"):
+        mids = [i_ for i_, tp_ in enumerate(gi.timepoints) if (tp_.hour, tp_.minute, tp_.second) == (0, 0, 0) and i_ < T - 1]
+        for tk in ticks:
+            if tk["form"] == "date" and not tk.get("date_pos") and mids and rng.random() < 0.2:
+                j_ = rng.choice(mids)
+                tk["now"] = j_ + 1
+                tk["date"] = {"$t": "date", "v": gi.timepoints[j_].date().isoformat()}
+                tk["date_on_grid"] = True
+                tk["date_plain"] = True
+                tk.pop("date_tz", None)
     # (round 11, drawn after everything else)
     all_nodes = sorted({world["nodes"][n]["name"] for a in world["portfolios"][P]["assets"] for n in specs.asset_nodes(world, a)})
     for tk in ticks:
